@@ -80,6 +80,14 @@ func init() {
 		}
 		ctxs[4].T = 2047 // every condition trapped but Clamped (Inexact and Rounded included)
 		ctxs[5].T = 1967 | 16
+		ctxs = append(ctxs, Ctx{P: 100, Emin: -100000, Emax: 100000, R: "half_up"})
+		allNines := len(ctxs) - 1
+		for _, k := range []int{39, 45, 70} { // 99..9.5: rounding to an integer rolls over to 10^k, a value the power-of-ten table also holds
+			c := new(bigIntT).Exp(bigInt(10), bigInt(int64(k+1)), nil)
+			c.Sub(c, bigInt(5))
+			pool = append(pool, finDec(false, c, -1))
+		}
+		ninesFrom := len(pool) - 3
 		ctxs = append(ctxs, Ctx{P: 3, Emin: -2, Emax: 3, R: "half_even"}, Ctx{P: 0, Emin: -100000, Emax: 100000},
 			Ctx{P: 400, Emin: -100000, Emax: 100000, R: "down"}) // wide enough for rescaling by more than 10^128
 		ops := []string{"add", "sub", "mul", "quo", "quoint", "rem", "cmp", "abs", "neg", "round", "quantize", "tointx", "tointv",
@@ -102,6 +110,12 @@ func init() {
 				if cc.op == "quantize" && g.R.Intn(3) == 0 { // pad by more than 128 digits (beyond the power-of-ten table)
 					cc.ci = len(sc) - 1
 					cc.q = -[]int{140, 200, 300}[g.R.Intn(3)]
+				}
+				if (cc.op == "quantize" || cc.op == "tointx" || cc.op == "tointv") && g.R.Intn(3) == 0 {
+					cc.ci, cc.xi, cc.q = allNines, ninesFrom+g.R.Intn(3), 0
+				}
+				if cc.op == "round" && g.R.Intn(4) == 0 { // rounding that needs 10^k, 39 <= k <= 70, from the table
+					cc.ci, cc.xi = 0, ninesFrom+g.R.Intn(3)
 				}
 				if (cc.op == "add" || cc.op == "sub" || cc.op == "cmp") && g.R.Intn(6) == 0 {
 					cc.ci = len(sc) - 1 // exponent gaps beyond the table as well
@@ -126,16 +140,21 @@ func init() {
 					sc[i] = decCtx(c)
 				}
 			}
-			callShared := func(cc concCase) (o AOut) {
+			// every caller keeps ONE private destination for all its calls and now and then goes on computing with it in
+			// place: a result that shares storage with a shared operand or a package table is written through here
+			callShared := func(cc concCase, d *apd.Decimal, follow bool) (o AOut) {
 				defer func() {
 					if r := recover(); r != nil {
 						o.Panic = fmt.Sprint(r)
 						o.Res, o.XA, o.YA = none, none, none
 					}
 				}()
-				d := new(apd.Decimal)
 				o = callOn(sc[cc.ci], cc.op, d, sx[cc.xi], sx[cc.yi], cc.q)
 				o.Res = encDec(d)
+				if follow && d.Form == apd.Finite {
+					private := apd.BaseContext.WithPrecision(0)
+					private.Add(d, d, d)
+				}
 				o.XA, o.YA = none, none
 				o.CtxA = encCtx(sc[cc.ci])
 				return o
@@ -148,8 +167,9 @@ func init() {
 			// alone
 			seq := make([]AOut, ncase)
 			ro := make([][]string, ncase)
+			dAlone := new(apd.Decimal)
 			for i, cc := range cases {
-				seq[i] = callShared(cc)
+				seq[i] = callShared(cc, dAlone, i%3 == 0)
 				ro[i] = readOnly(sx[cc.xi], sx[cc.yi])
 			}
 			// concurrently
@@ -169,9 +189,10 @@ func init() {
 				go func(gi int, off int) {
 					defer wg.Done()
 					<-start
+					dOwn := new(apd.Decimal)
 					for k := 0; k < ncase; k++ {
 						i := (k*7 + off) % ncase
-						res[gi][i] = callShared(cases[i])
+						res[gi][i] = callShared(cases[i], dOwn, i%3 == 0)
 						roc[gi][i] = readOnly(sx[cases[i].xi], sx[cases[i].yi])
 						if (k+gi)%5 == 0 {
 							runtime.Gosched()
